@@ -15,7 +15,7 @@ RULE = ("(G) random histories of <= 12 gv(...) / gv.clean() calls over every sub
 ASSUMPTIONS = ["execution_time bookkeeping attributes written on arguments are not sample data and are ignored",
                "the time axis gv.t is accepted when it starts at 0, is uniform and its pitch equals dt to within 2 parts in N*sps",
                "OMP/BLAS threads pinned to 1 so that scikit-learn's KMeans reductions are order-deterministic"]
-MIN_CHECKS = {"hist.fresh_process": 1, "gv.invariant": 2000, "pure.args_unchanged": 300, "pure.gv_unchanged": 300, "det.same_state": 300, "det.any_state": 150, "alias.none": 300, "hist.independent": 10}
+MIN_CHECKS = {"hist.fresh_process": 1, "gv.invariant": 2000, "pure.args_unchanged": 300, "pure.gv_unchanged": 300, "pure.ambient_unchanged": 300, "det.same_state": 300, "det.any_state": 150, "alias.none": 300, "hist.independent": 10}
 SHARDS = {"quick": 4}
 
 T = D = P = O = U = L = None
@@ -376,10 +376,13 @@ def w_purity_determinism(ctx, rng, i):
     try:
         with core.quiet(), core.readonly(*arrs):
             _trap["armed"] = True
-            try:
-                r1 = fn()
-            finally:
-                _trap["armed"] = False
+            with np.errstate(all="warn"):            # (quiet() runs with everything ignored: a seterr(...='ignore') left behind would not show)
+                amb0 = core.ambient_snapshot()
+                try:
+                    r1 = fn()
+                finally:
+                    _trap["armed"] = False
+                amb = core.ambient_diff(amb0, core.ambient_snapshot())
     except ValueError as e:
         if "read-only" in str(e) or "readonly" in str(e) or "WRITEABLE" in str(e):
             ctx.check("pure.args_unchanged", False, f"{name} wrote into an argument buffer: {e}")
@@ -389,6 +392,9 @@ def w_purity_determinism(ctx, rng, i):
     st1 = np.random.get_state()
     ctx.check("pure.args_unchanged", [core.digest(a) for a in arrs] == before, f"{name} changed the sample data of an argument")
     ctx.check("pure.gv_unchanged", gv_snapshot() == g0 and not _trap["writes"], f"{name} modified the global grid (writes: {_trap['writes'][:5]})")
+    # a result may depend on arguments, gv and numpy's RNG only, "whatever was called before": a call that leaves numpy's error
+    # state, the warnings filters, print options, cwd or environment changed alters what later calls do (e.g. divide='raise')
+    ctx.check("pure.ambient_unchanged", amb is None, f"{name} left process-global state changed: {amb}")
     outs = flat_arrays(r1)
     ctx.check("alias.none", not any(np.shares_memory(o, a) for o in outs for a in arrs), f"{name}: an output array shares memory with an argument buffer")
     d1 = result_digest(r1)
